@@ -10,6 +10,7 @@ use config::{Config, ConfigError, Environment, File, Value, ValueKind};
 use directories::ProjectDirs;
 use libp2p::Multiaddr;
 use serde::Deserialize;
+use sierradb::MAX_REPLICATION_FACTOR;
 use sierradb::bucket::{BucketId, PartitionId};
 use sierradb::cache::BLOCK_SIZE;
 use thiserror::Error;
@@ -353,6 +354,12 @@ impl AppConfig {
         if self.replication.factor == 0 {
             errs.push(ValidationError::ReplicationFactorZero);
         }
+        if self.replication.factor as usize > MAX_REPLICATION_FACTOR {
+            errs.push(ValidationError::ReplicationFactorTooLarge {
+                factor: self.replication.factor,
+                max: MAX_REPLICATION_FACTOR,
+            });
+        }
         if self.replication.buffer_size == 0 {
             errs.push(ValidationError::ReplicationBufferSizeZero);
         }
@@ -677,6 +684,8 @@ pub enum ValidationError {
     // Replication errors
     #[error("replication factor cannot be zero")]
     ReplicationFactorZero,
+    #[error("replication factor {factor} exceeds the maximum of {max}")]
+    ReplicationFactorTooLarge { factor: u8, max: usize },
     #[error("replication factor {factor} exceeds node count {node_count}")]
     ReplicationFactorExceedsNodeCount { factor: u8, node_count: usize },
     #[error("replication buffer size cannot be zero")]
